@@ -65,6 +65,10 @@ impl GreenNode {
         let header = &mut Arc::get_mut(&mut data).unwrap().header.header;
         header.text_len = text_len;
         header.child_hash = hasher.finish() as u32;
+        #[cfg(cstree_verif)]
+        {
+            header.child_hash &= crate::verif::hash_mask();
+        }
         GreenNode {
             data: Arc::into_thin(data),
         }
@@ -139,6 +143,13 @@ impl GreenNode {
         GreenNodeChildren {
             inner: self.data.slice.iter(),
         }
+    }
+
+    /// Verification hook: the address of this node's allocation (pointer identity).
+    #[cfg(cstree_verif)]
+    #[doc(hidden)]
+    pub fn verif_addr(&self) -> usize {
+        self.data.with_arc(|arc| triomphe::Arc::as_ptr(arc) as *const u8 as usize)
     }
 }
 
